@@ -603,6 +603,39 @@ fn groups(thorough: bool) -> Vec<(&'static str, Vec<Setter>)> {
     gs
 }
 
+/// Every way erbium.conf(5) lets a duration be written ("numbers suffixed with s, m, h or d;
+/// multiple units can be combined, and if the unit is left off it is assumed to be seconds", e.g.
+/// "4h20m5" = 15605): every non-empty subset of the four units, in descending and in ascending
+/// order, with and without a trailing unit-less number, written tight and with spaces.
+/// (spelling, seconds)
+pub fn duration_spellings() -> Vec<(String, u64)> {
+    let units: [(&str, u64, u64); 4] = [("d", 86400, 2), ("h", 3600, 3), ("m", 60, 4), ("s", 1, 5)];
+    let mut out: Vec<(String, u64)> = vec![("4h20m5".into(), 15605), ("15605".into(), 15605)];
+    for mask in 1u32..16 {
+        let parts: Vec<(String, u64)> = (0..4).filter(|i| mask & (1 << i) != 0).map(|i| (format!("{}{}", units[i].2, units[i].0), units[i].1 * units[i].2)).collect();
+        let mut orders = vec![parts.clone()];
+        if parts.len() > 1 {
+            orders.push(parts.iter().rev().cloned().collect());
+        }
+        for o in orders {
+            for trailing in [false, true] {
+                for sep in ["", " "] {
+                    let mut words: Vec<String> = o.iter().map(|p| p.0.clone()).collect();
+                    let mut secs: u64 = o.iter().map(|p| p.1).sum();
+                    if trailing {
+                        words.push("7".into());
+                        secs += 7;
+                    }
+                    out.push((words.join(sep), secs));
+                }
+            }
+        }
+    }
+    out.sort();
+    out.dedup();
+    out
+}
+
 pub fn all_cfgs(thorough: bool) -> Vec<(String, Cfg)> {
     let mut out: Vec<(String, Cfg)> = vec![];
     let gs = groups(thorough);
@@ -624,6 +657,20 @@ pub fn all_cfgs(thorough: bool) -> Vec<(String, Cfg)> {
                     let mut c = b.clone();
                     set(&mut c);
                     out.push(((*name).into(), c));
+                }
+            }
+            // every duration spelling of the manual, as the reachable time (milliseconds on the
+            // wire, 32 bits: every spelling's value is representable) and as the router lifetime
+            // where it fits 16 bits
+            if ctx == 0 {
+                for (sp, secs) in duration_spellings() {
+                    let mut c = b.clone();
+                    c.reachable = ch(Some(&format!("'{sp}'")), Want::Is((secs * 1000) as u32));
+                    if secs <= 65535 {
+                        c.lifetime = ch(Some(&format!("'{sp}'")), Want::Is(secs as u16));
+                        c.lifetime_unspecified = false;
+                    }
+                    out.push(("durations".into(), c));
                 }
             }
             // every pair of groups, full product of the two (cross-group interactions:
@@ -924,6 +971,13 @@ fn wire_cfgs(thorough: bool) -> Vec<(String, Cfg)> {
         for top in [false, true] {
             let b = base_cfg(ctx, top);
             out.push((format!("base{ctx}"), b.clone()));
+            if ctx == 0 && !top {
+                for (sp, secs) in duration_spellings().into_iter().step_by(if thorough { 1 } else { 4 }) {
+                    let mut c = b.clone();
+                    c.reachable = ch(Some(&format!("'{sp}'")), Want::Is((secs * 1000) as u32));
+                    out.push(("durations".into(), c));
+                }
+            }
             for (name, g) in &gs {
                 if *name == "mtu" {
                     continue; // interface mtu / link-layer variations are facts of the rig here
@@ -1347,7 +1401,7 @@ pub fn run(tier: &str, replay: Option<Value>) -> ! {
     rep.cov("wire_rule", "the real RaAdvService (real netlink-fed NetInfo, real raw ICMPv6 socket) on one end of a veth pair in a private network namespace, one instance per configuration; a router solicitation frame is sent from the other end and the advertisement captured there is decoded by the same RFC decoder and compared with expected(configuration, environment), for three environments: no IPv6 default route, default route out of the advertising interface, default route out of another interface; every third configuration additionally lists the interface's own prefix under the top-level addresses (the explicit section must still win). Also judged: ICMPv6 checksum, IPv6 hop limit 255, link-local source, destination");
     rep.cov("evaluations", cfgs.len() as u64 + wire_n);
     rep.cov("distinct_nontrivial", distinct_yaml.len() as u64);
-    rep.cov("rule", "interface configurations from the grammar (full product inside each group: header, timers, mtu x interface-mtu x lladdr, prefix lists of length <=2 (thorough <=3) over 7 prefixes, rdnss x lifetime, dnssl x lifetime, pref64 x lifetime, captive portal) x top-level defaults {absent,present} x 3 base contexts {all absent, all present, all null}; the full product of every PAIR of groups (prefix lists cut to length <=1, timers sampled every 5th); thorough also every TRIPLE of the groups with <= 60 entries; distinct = distinct YAML documents that reached the loader");
+    rep.cov("rule", "interface configurations from the grammar (full product inside each group: header, timers, mtu x interface-mtu x lladdr, prefix lists of length <=2 (thorough <=3) over 7 prefixes, rdnss x lifetime, dnssl x lifetime, pref64 x lifetime, captive portal; every duration spelling of the manual -- each subset of the units d/h/m/s in both orders, with/without a trailing unit-less number, tight and spaced -- as reachable time and router lifetime) x top-level defaults {absent,present} x 3 base contexts {all absent, all present, all null}; the full product of every PAIR of groups (prefix lists cut to length <=1, timers sampled every 5th); thorough also every TRIPLE of the groups with <= 60 entries; distinct = distinct YAML documents that reached the loader");
     rep.cov("exhaustive", true);
     rep.cov("outcome_classes", json!(classes));
     rep.cov("samples", pick_samples(&samples, 6, rep.seed));
